@@ -160,10 +160,31 @@ def extra_blocks():
     return out
 
 
+def extra_programs():
+    """Hand-written programs every compile correspondence run includes: Pin on a trial where a complex
+    derived factor has no level (/repo c195977: And([1, -1]) for that trial instead of a shifted variable)."""
+    f = {"id": 0, "name": "f", "kind": "simple", "levels": [["a", 1], ["b", 1]]}
+    rep = {"id": 1, "name": "rep", "kind": "derived", "window": {"type": "transition", "deps": [0]},
+           "levels": [{"name": "same", "table": [[["a", "a"]], [["b", "b"]]]}, {"name": "diff", "else": True}]}
+    win = {"id": 1, "name": "win", "kind": "derived", "window": {"type": "window", "deps": [0], "width": 2, "stride": 2},
+           "levels": [{"name": "same", "table": [[["a", "a"]], [["b", "b"]]]}, {"name": "diff", "else": True}]}
+    out = []
+    for nm, d, idx, t in (("pin0-transition", rep, 0, 4), ("pin-last-strided-window", win, -1, 5),
+                          ("pin1-transition", rep, 1, 4), ("pin0-strided-window", win, 0, 5)):
+        out.append(("corpus:" + nm, {
+            "factors": [f, d],
+            "constraints": [{"id": 0, "kind": "Pin", "index": idx, "level": [1, "same"]},
+                            {"id": 1, "kind": "MinimumTrials", "trials": t}],
+            "blocks": [{"id": 0, "kind": "CrossBlock", "design": [0, 1], "crossing": [0], "constraints": [0, 1], "rcc": True}],
+            "main": 0}))
+    return out
+
+
 def compile_correspondence(ctx, res, programs, full=True, full_cap=4000, blocks=()):
     """Run model and real code on every program.  `programs` is a list of
     program dicts (harness/ir.py format) or (name, program) pairs; `blocks` a
     list of (name, description, real block) built directly."""
+    programs = list(extra_programs()) + list(programs)
     cases = []
     for name, desc, block in blocks:
         try:
